@@ -316,6 +316,24 @@ func (c *Ctx) compactCase(ns share.Namespace, txs [][]byte, allRanges bool) {
 		}
 	}
 	c.emit("css ranges 0", strings.Join(sortedCopy(mstr), " "))
+	// the accessor is idempotent and the offset is only added to what it returns: asking twice with a non-zero
+	// offset, and asking with offset 0 afterwards, gives consistent answers
+	{
+		c.oracle()
+		off := c.rng.Range(1, 9)
+		r1 := css.ShareRanges(off)
+		r2 := css.ShareRanges(off)
+		r0 := css.ShareRanges(0)
+		okR := len(r1) == len(rs) && len(r2) == len(rs) && len(r0) == len(rs)
+		for k, v := range rs {
+			if r1[k].Start != v.Start+off || r1[k].End != v.End+off || r2[k] != r1[k] || r0[k] != v {
+				okR = false
+			}
+		}
+		if !okR {
+			c.violate("C12", "", fmt.Sprintf("ShareRanges(%d) asked twice, then ShareRanges(0): the answers are not the recorded ranges shifted by the offset", off), "", c.caseOps)
+		}
+	}
 	if !allRanges || n == 0 {
 		return
 	}
